@@ -41,6 +41,8 @@ EXTENDS Naturals, Sequences, FiniteSets, TLC
 CONSTANTS Task,      \* tasks started by pyscript (trigger occurrence, service call, task.create)
           Foreign,   \* tasks not started by pyscript (loader preamble, Jupyter cell)
           Name, Ctx, \* unique names are keyed by (global context, name)
+          Roam,      \* BOOLEAN: may a task call task.unique while it executes code of a global context other than
+                     \* the one it was started in (a function imported from modules/, another file's function)?
           Fn,        \* done-callback functions
           MethFn,    \* those of them that are bound methods of pyscript class instances (only the deviation
                      \* "method-cb-per-lookup" treats them differently)
@@ -124,7 +126,7 @@ ClaimVars(t, k, enq) ==
   /\ lastClaim' = [lastClaim EXCEPT ![k] = t]
   /\ claimed' = [claimed EXCEPT ![t] = @ \cup {k}]
   /\ rq' = rq \o enq
-  /\ crossKill' = (crossKill \/ \E i \in 1..Len(enq) : ctxOf[enq[i]] # ctxOf[t])
+  /\ crossKill' = (crossKill \/ \E i \in 1..Len(enq) : k \notin claimed[enq[i]])
 
 Victims(t, k) == IF Other(t, k) /\ n2t[k] \in ours THEN <<n2t[k]>> ELSE <<>>
 
@@ -235,9 +237,14 @@ DeliverCancel(t) ==
                  ranArg, waitOn, lastClaim, claimed, kmBad, crossKill, apiErr, stale>>
 
 \* ------------------------------------------------------------------ operations of the running task
-OpUnique(t, n, km) ==
-  /\ CanOp(t, "unique") /\ Count(t)
-  /\ LET k == <<ctxOf[t], n>>
+\* the global context in which a piece of code of task t may execute: the context t was started in, and - a
+\* pyscript function always runs in the global context it was DEFINED in, whoever calls it - any other one
+CodeCtx(t) == IF Roam THEN Ctx ELSE {ctxOf[t]}
+
+\* task.unique(n, kill_me=km) called by t while it executes code of global context c: the name is c's
+OpUnique(t, c, n, km) ==
+  /\ CanOp(t, "unique") /\ Count(t) /\ c \in CodeCtx(t)
+  /\ LET k == <<c, n>>
          rule == km /\ Other(t, k) /\ t \in Task
          act  == km /\ Other(t, k) /\ (t \in Task \/ Has("foreign-killme-cancelled"))
      IN /\ kmBad' = (kmBad \/ (act # rule))
@@ -249,10 +256,13 @@ OpUnique(t, n, km) ==
                 /\ LET enq == IF km THEN <<>> ELSE Victims(t, k) IN
                    IF t \in ours THEN ClaimVars(t, k, enq)
                    ELSE /\ rq' = rq \o enq
-                        /\ crossKill' = (crossKill \/ \E i \in 1..Len(enq) : ctxOf[enq[i]] # ctxOf[t])
+                        /\ crossKill' = (crossKill \/ \E i \in 1..Len(enq) : k \notin claimed[enq[i]])
                         /\ UNCHANGED <<n2t, t2n, lastClaim, claimed>>
   /\ UNCHANGED <<flags, phase, nenv, ctxOf, kind, deco, pend, rbusy, ours, cbKeys, ctxKeys, cbs, ran, ranArg,
                  cbcur, cbstop, outcome, waitOn, apiErr, exitCancelled, stale>>
+
+\* what task.name2id() shows to code of global context c: the owner of every name of c (None: NameError)
+View(c) == [n \in Name |-> n2t[<<c, n>>]]
 
 OpSleep(t) ==
   /\ CanOp(t, "sleep") /\ Count(t)
@@ -407,7 +417,7 @@ Cleanup(t) ==             \* release the unique names, forget HA context, callba
 \* ------------------------------------------------------------------ next-state relation
 Resume(t) == Start(t) \/ Continue(t) \/ DeliverCancel(t)
 RunStep(t) ==             \* what the task holding the loop can do next
-  \/ \E n \in Name, km \in BOOLEAN : OpUnique(t, n, km)
+  \/ \E c \in Ctx, n \in Name, km \in BOOLEAN : OpUnique(t, c, n, km)
   \/ OpSleep(t) \/ OpRaise(t) \/ OpFinish(t) \/ OpExec(t)
   \/ \E v \in Task : OpCreate(t, v) \/ OpCancel(t, v) \/ OpWait(t, v)
   \/ \E v \in Task, c \in Ctx, bl \in BOOLEAN : OpCall(t, v, c, bl)
@@ -454,9 +464,13 @@ OwnerIsLiveOurs == \A k \in Key : n2t[k] # None => Live(n2t[k]) /\ n2t[k] \in Ta
 OneLiveClaimantAtQuiescence ==
   Quiescent => \A k \in Key : \A t \in All : (Running(t) /\ k \in claimed[t]) => n2t[k] = t
 ReleasedWhenOwnerEnds == \A t \in All : Done(t) => t2n[t] = {} /\ \A k \in Key : n2t[k] # t
+\* nobody is killed by a claim of a key he never claimed himself (the key is (context of the calling code, name):
+\* the same spelling in another context is another name); a task holds only what it claimed; as long as tasks
+\* do not roam, all of that lies in the context the task was started in
 ContextsIndependent ==
   /\ ~crossKill
-  /\ \A t \in All : \A k \in t2n[t] \cup claimed[t] : k[1] = ctxOf[t]
+  /\ \A t \in All : t2n[t] \subseteq claimed[t]
+  /\ ~Roam => \A t \in All : \A k \in claimed[t] : k[1] = ctxOf[t]
 ForeignNeverCancelled ==
   \A f \in Foreign : /\ outcome[f] # "cancelled" /\ ~pend[f]
                      /\ \A i \in 1..Len(rq) : rq[i] # f
@@ -509,8 +523,16 @@ WitnessConds == <<
                   /\ kind[waitOn[t]] = "svc" /\ Live(waitOn[t])                 \*    call, the called run lives on
                   /\ phase[waitOn[t]] = "body",
   \E t \in Task : /\ st[t] = "run" /\ phase[t] = "body" /\ waitOn[t] # None    \* 13 called run cancelled, the caller
-                  /\ kind[waitOn[t]] = "svc" /\ outcome[waitOn[t]] = "cancelled" >>  \* goes on
-NW == 13
+                  /\ kind[waitOn[t]] = "svc" /\ outcome[waitOn[t]] = "cancelled",   \* goes on
+  \E t \in Task : \E k \in t2n[t] : k[1] # ctxOf[t],                          \* 14 a name held in another context than
+                                                                             \*    the one the task was started in
+  \E t \in Task : /\ outcome[t] = "cancelled"                                 \* 15 killed by a task that was started in
+                  /\ \E k \in claimed[t] : /\ lastClaim[k] \notin {None, t}   \*    ANOTHER context (both claimed the
+                                           /\ ctxOf[lastClaim[k]] # ctxOf[t],  \*    name inside the same third-party code)
+  \E t, u \in Task : /\ t # u /\ ctxOf[t] = ctxOf[u] /\ Running(t) /\ Running(u)  \* 16 one spelling, one starting context,
+                     /\ \E n \in Name : \E c, d \in Ctx :                       \*    two live owners: the names live in
+                          c # d /\ n2t[<<c, n>>] = t /\ n2t[<<d, n>>] = u >>      \*    different code contexts
+NW == 16
 ASSUME \A i \in 1..NW : TLCSet(100 + i, FALSE)
 Witness == \A i \in 1..NW : WitnessConds[i] => TLCSet(100 + i, TRUE)
 WitnessReport == \A i \in 1..NW : TLCGet(100 + i) \/ PrintT(<<"UNSEEN", i>>)
